@@ -16,7 +16,14 @@ H = 'connection.H2Connection.'
 LIMIT = 2 ** 31 - 1
 
 
+DIRECTION = ('((stream_id % 2) == int(self.config.client_side))',
+             '(int(self.config.client_side) == (stream_id % 2))')
+
+
 def outbound_fact(path):
+    """Did the path decide "this id is one of ours"?  Through the helper,
+    or through its body seen by inlining (method or module-level function
+    given config.client_side: the same test)."""
     for e in path.events:
         if e.kind == 'assume':
             c, neg = (e.cond[1], True) if e.cond[0] == 'not' \
@@ -24,13 +31,22 @@ def outbound_fact(path):
             if c[0] == 'truth' and c[1][0] == 'call' and \
                     c[1][1].endswith('_stream_id_is_outbound'):
                 return not neg
+            if cm.show0(c) in DIRECTION:
+                return not neg
+            if c[0] == 'ne' and cm.show0(('eq', c[1], c[2])) in DIRECTION:
+                return neg
     return None
+
+
+def direction_interp(eng):
+    f = eng.m.func(H + '_stream_id_is_outbound')
+    return eng.interp({f.qual}, depth=1)
 
 
 def lookup_rule(ctx, eng):
     fi = eng.m.func(H + '_get_stream_by_id')
     kinds = {}
-    for p in eng.I.run(fi):
+    for p in direction_interp(eng).run(fi):
         r = cm.explicit_raise(p)
         if r is None:
             continue
@@ -159,20 +175,27 @@ def run(ctx, eng):
                'raise paths write nothing', node=fi.node)
     # direction test
     fi2 = eng.m.func(H + '_stream_id_is_outbound')
-    ok = any(p.exit == 'return' and cm.show0(p.value) in (
-        '((stream_id % 2) == int(self.config.client_side))',)
-        for p in eng.I.run(fi2))
+    # decided where the test is used (the helper inlined): a method reading
+    # self.config.client_side and a function that is handed it are the same
+    ok = any(cm.show0(e.cond) in DIRECTION or (
+        e.cond[0] == 'not' and cm.show0(e.cond[1]) in DIRECTION)
+        for p in direction_interp(eng).run(
+            eng.m.func(H + '_get_stream_by_id'))
+        for e in p.events if e.kind == 'assume')
     ctx.ob('ARITH.direction', fi2.qual, 'outbound iff own parity', ok,
            'stream_id % 2 == int(config.client_side)', node=fi2.node)
     # ---- callers' parity
     want = {
-        'send_headers': 'enum:AllowedStreamIDs(self.config.client_side)',
-        '_receive_headers_frame':
-            'enum:AllowedStreamIDs(not self.config.client_side)',
-        'push_stream': 'AllowedStreamIDs.EVEN',
-        '_receive_push_promise_frame': 'AllowedStreamIDs.EVEN',
-        'initiate_upgrade_connection': 'AllowedStreamIDs.ODD',
+        'send_headers': 'own',
+        '_receive_headers_frame': 'peer',
+        'push_stream': 'EVEN',
+        '_receive_push_promise_frame': 'EVEN',
+        'initiate_upgrade_connection': 'ODD',
     }
+    # push_stream runs on servers only and the promise handler on clients
+    # only: written with the role spelt out, EVEN is 'own' resp. 'peer'
+    also = {'push_stream': {'own'}, '_receive_push_promise_frame': {'peer'},
+            'initiate_upgrade_connection': {'own', 'peer'}}
     got = {}
     for name in want:
         f3 = eng.m.func(H + name)
@@ -181,7 +204,7 @@ def run(ctx, eng):
                                  '_get_or_create_stream'):
                 a = e.kwargs.get('allowed_ids',
                                  e.args[1] if len(e.args) > 1 else None)
-                got.setdefault(name, set()).add(cm.show0(a) if a else '?')
+                got.setdefault(name, set()).add(cm.parity_class(p, a))
     # _get_or_create_stream forwards its argument
     f4 = eng.m.func(H + '_get_or_create_stream')
     fw = any(e.args[:2] == (('p', 'stream_id'), ('p', 'allowed_ids'))
@@ -191,7 +214,8 @@ def run(ctx, eng):
            '_begin_new_stream(stream_id, allowed_ids)', node=f4.node)
     for name, exp in sorted(want.items()):
         ctx.ob('FLOW.parity', H + name, 'parity argument',
-               got.get(name) == {exp},
+               bool(got.get(name)) and
+               got[name] <= {exp} | also.get(name, set()),
                'creates streams with %s (found %s)' % (
                    exp, sorted(got.get(name, []))),
                node=eng.m.func(H + name).node)
